@@ -287,6 +287,29 @@ def gen_scene(rng, cls: str) -> dict:
     if cls in QUANTISABLE and rng.random() < 0.25:
         quantise(out, rng.choice([50, 100]))
         out['quantised'] = True
+    # shape of the caller's table: row order, ceilometer naming, sign of the time deltas
+    if rng.random() < 0.2:
+        how = rng.choice(['shuffle', 'by-ceilo', 'reverse'])
+        if how == 'shuffle':
+            rng.shuffle(out['rows'])
+        elif how == 'by-ceilo':
+            out['rows'].sort(key=lambda r: (r[0], r[1], r[3]))
+        else:
+            out['rows'].reverse()
+        out['row_order'] = how
+    if rng.random() < 0.15:
+        names = sorted({r[0] for r in out['rows']})
+        scheme = rng.choice([lambda i: str(i + 1), lambda i: f'Ceilometer.{"PO" if i == 0 else i}',
+                             lambda i: f'LSZH_{chr(65 + i % 26)}{i // 26 or ""}',
+                             lambda i: f'ceilo {i:02d} (é)'])
+        ren = {n: scheme(i) for i, n in enumerate(names)}
+        for r in out['rows']:
+            r[0] = ren[r[0]]
+        out['renamed'] = True
+    if rng.random() < 0.1:
+        for r in out['rows']:
+            r[1] = _r(r[1] + 300.0, 2)       # some time deltas positive
+        out['dt_shifted'] = True
     return out
 
 
